@@ -155,6 +155,7 @@ func runC10R2(c *Ctx, r *Rep) {
 			r.bad(key, fd.Pos(), "no barrier")
 			continue
 		}
+		info = bi.info
 		r.analysed(FuncID(fn))
 		// shape: if r := recover(); r != nil { <results> = …, Conv(r) }
 		var problems []string
@@ -168,11 +169,14 @@ func runC10R2(c *Ctx, r *Rep) {
 			case *ast.AssignStmt:
 				for i, l := range x.Lhs {
 					id := identOf(l)
+					if st, ok := unparen(l).(*ast.StarExpr); ok {
+						id = identOf(st.X) // *err = … in a named barrier function
+					}
 					if id == nil {
 						continue
 					}
 					o := info.Uses[id]
-					if o == nil || o.Type().String() != "error" {
+					if o == nil || (o.Type().String() != "error" && o.Type().String() != "*error") {
 						continue
 					}
 					var rhs ast.Expr
